@@ -118,6 +118,34 @@ pub mod clock {
     }
 }
 
+/// Drop-in replacement for `futures_timer::Delay` on tokio's clock, so that the notification protocol's negotiation
+/// and validation timers run on the (pausable) runtime clock like every other timer of the crate.
+pub mod timer {
+    use std::{
+        future::Future,
+        pin::Pin,
+        task::{Context, Poll},
+        time::Duration,
+    };
+
+    /// Same surface as the part of `futures_timer::Delay` the crate uses (`new`, `Future`, `Unpin`).
+    pub struct Delay(Pin<Box<tokio::time::Sleep>>);
+
+    impl Delay {
+        pub fn new(duration: Duration) -> Self {
+            Delay(Box::pin(tokio::time::sleep(duration)))
+        }
+    }
+
+    impl Future for Delay {
+        type Output = ();
+
+        fn poll(mut self: Pin<&mut Self>, cx: &mut Context<'_>) -> Poll<()> {
+            self.0.as_mut().poll(cx)
+        }
+    }
+}
+
 // ------------------------------------------------------------------------------------------------
 // Transport seam: a public mirror of the crate-private `Transport` trait / `TransportEvent`, so
 // the harness can install a scripted transport into a real `Litep2p`.
